@@ -64,6 +64,10 @@ func init() {
 }
 
 func runC04(c *Ctx, r *Report) {
+	r.Rule("C04/pattern-recompiled", "buildPrivGraph recompiles every level's pattern unconditionally (UpdatePrivileges after an edit takes effect)", 1)
+	r.Rule("C04/always-fetches-prompt", "AcquirePriv reports success only after it fetched the device's prompt", 1)
+	checkPatternRecompiled(c, r, "C04/pattern-recompiled")
+	checkAcquireAlwaysFetchesPrompt(c, r, "C04/always-fetches-prompt")
 	r.Rule("C04/priv-steps-plain", "escalate / deescalate send their command with no per-operation options (the send waits for the following prompt)", 2)
 	checkPrivStepsPlain(c, r, "C04/priv-steps-plain")
 	r.Rule("C04/error-classes", "each failure site named by the property wraps the sentinel the property names (timeout / auth / connection / privilege / NETCONF / operation / platform error)", 2)
